@@ -34,6 +34,8 @@ def main():
     meta = json.load(open(os.path.join(src, 'meta.json')))
     prop = meta['property']
     variant = os.path.basename(src)
+    if '_' in variant:                  # re-validation of a kept seed: seeded/<prop>_<variant>
+        variant = variant.split('_')[-1]
     checks = checks or [prop]
     patch = os.path.join(src, 'patch.diff')
     demo = os.path.join(src, 'demo.py')
@@ -88,8 +90,9 @@ def main():
     result['valid_seed'] = bool(valid)
     dst = os.path.join(V, 'seeded', '%s_%s' % (prop, variant))
     os.makedirs(dst, exist_ok=True)
-    shutil.copy(patch, os.path.join(dst, 'patch.diff'))
-    shutil.copy(demo, os.path.join(dst, 'demo.py'))
+    if os.path.abspath(dst) != os.path.abspath(src):
+        shutil.copy(patch, os.path.join(dst, 'patch.diff'))
+        shutil.copy(demo, os.path.join(dst, 'demo.py'))
     json.dump(result, open(os.path.join(dst, 'meta.json'), 'w'), indent=1)
     det = {c: r.get('detected') for c, r in result['checks'].items() if isinstance(r, dict)}
     print('%s_%s valid=%s detected=%s  %s' % (prop, variant, valid, det, meta.get('summary', '')[:90]))
